@@ -129,7 +129,7 @@ class SinexTmsParser(SinexParser):
                 if f.converter
             }
         
-        return np.genfromtxt(
+        data = np.genfromtxt(
             lines,
             names=names,
             delimiter=delimiter,
@@ -140,6 +140,13 @@ class SinexTmsParser(SinexParser):
             comments=None,  # '#' is an ordinary character in SINEX, comment lines start with '*' and are already removed
             encoding=self.file_encoding or "bytes",  # TODO: Use None instead
         )
+
+        # Several records of a single column are returned by np.genfromtxt as a flat array, which cannot be told from
+        # one record with several columns: keep one row per record
+        if delimiter is None and data.dtype.names is None and data.ndim == 1 and sum(1 for ln in lines if ln.split()) > 1:
+            data = data.reshape(-1, 1)
+
+        return data
 
 
     #
